@@ -4,10 +4,13 @@ import struct
 import canon
 
 
-def run_decoder(chunks, max_payload, return_bytes=True, return_offset=True, use_callback=False, as_ints=False, typed_callbacks=None):
+def run_decoder(chunks, max_payload, return_bytes=True, return_offset=True, use_callback=False, as_ints=False, typed_callbacks=None,
+                form='bytes'):
     """Returns (per-call canonical strings, flat list of result dicts, error or None).
     as_ints: single-byte chunks are passed as `int` (the documented alternative input form).
-    typed_callbacks: dict type -> list, filled by callbacks registered for that specific message type."""
+    typed_callbacks: dict type -> list, filled by callbacks registered for that specific message type.
+    form: how a chunk is handed over: 'bytes'; 'ba_wipe' = a fresh bytearray that the caller zeroes and empties right after
+    the call; 'ba_reuse' = one receive bytearray refilled in place for every call (the decoder must have copied what it keeps)."""
     from fusion_engine_client.parsers.decoder import FusionEngineDecoder
     from fusion_engine_client.messages import MessageHeader
     dec = FusionEngineDecoder(max_payload_len_bytes=max_payload, return_bytes=return_bytes,
@@ -21,9 +24,23 @@ def run_decoder(chunks, max_payload, return_bytes=True, return_offset=True, use_
             dec.add_callback(MessageType(t, raise_on_unrecognized=False), (lambda s: (lambda *a: s.append(a)))(sink))
     calls = []
     flat = []
+    rx = bytearray()
     for ch in chunks:
         try:
-            res = dec.on_data(ch[0] if (as_ints and len(ch) == 1) else bytes(ch))
+            if as_ints and len(ch) == 1:
+                arg = ch[0]
+            elif form == 'ba_wipe':
+                arg = bytearray(ch)
+            elif form == 'ba_reuse':
+                rx[:] = ch
+                arg = rx
+            else:
+                arg = bytes(ch)
+            res = dec.on_data(arg)
+            if form == 'ba_wipe':
+                for i in range(len(arg)):
+                    arg[i] = 0x2e
+                del arg[:]
         except BaseException as e:  # the property says "never raises"
             return calls, flat, '%s: %s' % (type(e).__name__, e), cb
         pairs = []
